@@ -53,11 +53,12 @@ theorem counterexample_none_sentinel (fc : FieldCodec) (tc : TimeCodec) (h0 : tc
   simp [serialize, deserialize, parseTags, parseFields, h0, toDict, dictSet, hn,
     sniffTag, tagPre, tagSniff1, defaultTagPrefix]
 
-/-- the empty measurement name is written as the sentinel and comes back as `"_none"` -/
-theorem counterexample_empty_measurement (fc : FieldCodec) (tc : TimeCodec) (h0 : tc.fromIso (tc.iso 0) = some 0) :
+/-- the empty measurement name is written as is and comes back unchanged (it used to be replaced by the
+    sentinel; repaired, see known_findings.json) -/
+theorem empty_measurement_roundtrips (fc : FieldCodec) (tc : TimeCodec) (h0 : tc.fromIso (tc.iso 0) = some 0) :
     deserialize fc tc (serialize fc tc false { time := 0, meas := "", tags := [], fields := [] })
-      = some { time := 0, meas := "_none", tags := [], fields := [] } := by
-  simp [serialize, deserialize, parseTags, parseFields, h0, toDict, noneS, noneStr]
+      = some { time := 0, meas := "", tags := [], fields := [] } := by
+  simp [serialize, deserialize, measEmptyAsSentinel, parseTags, parseFields, toDict, h0]
 
 /-- a field value that `float` does not represent exactly comes back as the rounded value: for any
     codec whose `repr` goes through a rounding `fl`, the decoded value is `fl n`, not `n` -/
